@@ -568,7 +568,8 @@ pub fn v9_def(options: bool, max_fields: usize) -> BoxedStrategy<Def> {
             len: l,
             ent: None,
         });
-        (vec(scope, 1..=2), vec(f, 1..=max_fields.min(5)))
+        // 1..3 scope fields; now and then an options template without option fields
+        (vec(scope, 1..=3), prop_oneof![9 => vec(f.clone(), 1..=max_fields.min(5)), 1 => vec(f, 0..=0)])
             .prop_map(|(s, opts)| {
                 let n = s.len() as u16;
                 let mut fields = s;
